@@ -331,7 +331,13 @@ pub fn instantiate(template: &'static str, rng: &mut Rng) -> Program {
             // a member of a definition and a definition inside the module of the same name share a scoped name
             // (field B of struct Kn::A / struct B of module Kn::A): uses of the name find the definition, in every
             // file order (the pinned tree let the last file win: fixed)
-            match rng.below(3) {
+            match rng.below(4) {
+                3 => {
+                    // two MEMBERS of different kinds under the same name (a parameter and a field)
+                    p.files.push(f("m1.slice", format!("module Km{u}\ninterface A {{ B(C: int32) }}\n")));
+                    p.files.push(f("m2.slice", format!("module Km{u}::A\nstruct B {{ C: int32 }}\n")));
+                    p.files.push(f("m3.slice", format!("module Kz{u}\n/// See {{@link Km{u}::A::B::C}}.\nstruct User {{}}\n")));
+                }
                 0 => {
                     p.files.push(f("m1.slice", format!("module Km{u}\nstruct A {{ B: int32 }}\n")));
                     p.files.push(f("m2.slice", format!("module Km{u}::A\nstruct B {{ x: int32 }}\n")));
@@ -696,6 +702,11 @@ pub fn random_program(rng: &mut Rng, inject: u8) -> Program {
         }
         if rng.chance(1, 4) {
             text.push_str(&format!("#define SYM{}\n", rng.below(3)));
+        }
+        // a module is re-opened by every file that declares it; each declaration may carry attributes of its own
+        // (they belong to that file's declaration and to nothing else)
+        if rng.chance(1, 3) {
+            text.push_str(&format!("[cs::namespace(\"Ns{f}\")]\n"));
         }
         text.push_str(&format!("module {}\n\n", modules[file_module[f]]));
         for (i, e) in ents.iter().enumerate() {
